@@ -185,6 +185,42 @@ def main():
                                      dict(rp, where=where, defect=hd_), rp)
                     if opts.get("secular_relaxation") and where == "outside":
                         pass
+            # an operator-form tensor converted to the tensor form inside the
+            # eigenbasis of a complex Hermitian operator ("in every basis")
+            if opts.get("as_operators") and not opts.get(
+                    "secular_relaxation"):
+                with ck.guarded("converted-in-complex-basis", theory, rp, rp):
+                    RT4, _ = ag.get_RelaxationTensor(
+                        ta, relaxation_theory=theory, **opts)
+                    nn = ham.dim
+                    Bc = numpy.random.RandomState(5 * nn + s).randn(nn, nn) \
+                        + 1j * numpy.random.RandomState(9 * nn + s).randn(
+                            nn, nn)
+                    Acx = qr.qm.SelfAdjointOperator(
+                        data=(Bc + Bc.conj().T) / 2)
+                    with qr.eigenbasis_of(Acx):
+                        RT4.convert_2_tensor()
+                        d_in = numpy.array(RT4.data)
+                    d_out = numpy.array(RT4.data)
+                    for where, d in (("complex-basis", d_in),
+                                     ("after-complex-basis", d_out)):
+                        sc = max(float(numpy.abs(d).max()), 1e-300)
+                        td_ = T.trace_defect(d) / sc
+                        hd_ = T.herm_defect(d) / sc
+                        ck.case("converted-in-complex-basis",
+                                (s, theory, str(opts), where),
+                                sample=dict(rp, where=where, trace=td_,
+                                            herm=hd_))
+                        if td_ > 1e-10:
+                            ck.violation("trace-preserving",
+                                         "converted-in-complex-basis:" +
+                                         theory, dict(rp, where=where,
+                                                      defect=td_), rp)
+                        if hd_ > 1e-10:
+                            ck.violation("hermiticity-preserving",
+                                         "converted-in-complex-basis:" +
+                                         theory, dict(rp, where=where,
+                                                      defect=hd_), rp)
             # the same object calculated a second time (public initialize(),
             # e.g. after a parameter of the system was changed): what it then
             # holds is again a relaxation tensor the package has built
